@@ -218,7 +218,11 @@ func runCaseOnce(c c14Case) (f *vh.Failure) {
 	// collect what was delivered
 	var seen []tds.Package
 	for {
-		p, err := ch.NextPackage(ctx, false)
+		// (a consumer that waits is handed the buffered packages first, like one that polls:
+		// the failure, although already known, comes after them)
+		cctx, ccancel := context.WithTimeout(ctx, bound)
+		p, err := ch.NextPackage(cctx, !c.Poll)
+		ccancel()
 		if err != nil {
 			break
 		}
